@@ -44,6 +44,43 @@ def lib2d_batch(*paths):
                 print(str(e))
         print(str(b.without_isolated()))
         print(str(b.without_pseudoknots()))
+        # ... and a conversion with a broken back-end (binary missing) before the next input is handled
+        import pulp
+
+        try:
+            print("broken-solver " + BpSeq.from_file(path).convert_to_dot_bracket(pulp.COIN_CMD(path="/nonexistent/vmon/cbc", msg=False)).structure)
+        except Exception as e:
+            print("broken-solver raised " + type(e).__name__)
+
+
+def writecif(path):
+    """Written mmCIF / PDB text of a parsed table, as returned string, through a handle and through a path."""
+    import io
+    import os
+    import tempfile
+
+    from rnapolis import parser_v2
+
+    def once():
+        with open(path) as f:
+            df = parser_v2.parse_cif_atoms(f) if path.endswith(".cif") else parser_v2.parse_pdb_atoms(f)
+        out = ["== write_cif -> str", parser_v2.write_cif(df)]
+        buf = io.StringIO()
+        parser_v2.write_cif(df, buf)
+        out += ["== write_cif -> handle", buf.getvalue()]
+        d = tempfile.mkdtemp()
+        pth = os.path.join(d, "model.cif")
+        parser_v2.write_cif(df, pth)
+        out += ["== write_cif -> path", open(pth).read()]
+        os.remove(pth)
+        os.rmdir(d)
+        if parser_v2.can_write_pdb(df):
+            out += ["== write_pdb -> str", parser_v2.write_pdb(df)]
+        return "\n".join(out)
+
+    a, b = once(), once()
+    print(a)
+    print("INPROCESS-REPEAT-EQUAL", a == b)
 
 
 def transform_batch(*paths):
@@ -172,6 +209,8 @@ def main():
         return lib3d(*argv)
     if what == "external_conflicts":
         return external_conflicts(*argv)
+    if what == "writecif":
+        return writecif(*argv)
     if what == "transform_batch":
         return transform_batch(*argv)
     if what == "lib2d_batch":
